@@ -266,9 +266,49 @@ class Cost:
                             return "D"
                     # for _ in 0..index_levels + 1
                     if x.k == "agg" and (x.x.get("adt") or "").endswith("ops::Range") and len(x.a) == 2 and const_val(x.a[0]) == 0:
-                        c_ = checked(x.a[1])
-                        if c_ and c_[0] == "Add" and const_val(c_[2]) == 1 and is_self_field(strip_casts(c_[1]), "index_levels"):
+                        if _is_depth(x.a[1]):
                             return "D"
+                    # for _ in 0..=index_levels
+                    if x.k == "call" and x.x["path"].endswith("RangeInclusive::<Idx>::new") and len(x.a) == 2 and const_val(x.a[0]) == 0 and is_self_field(strip_casts(x.a[1]), "index_levels"):
+                        return "D"
+        # while v.len() < index_levels + 1 { ..; v.push(..) } — a local vector that gains exactly one element on
+        # every path back to the loop header: at most D iterations
+        t = b.term(h) if b.term(h)["t"] == "switch" else None
+        heads = [h] + [x for x in blks if b.term(x)["t"] == "switch" and b.dominates(x, h) is False]
+        for hb in sorted(blks):
+            tt = b.term(hb)
+            if tt["t"] != "switch":
+                continue
+            e = b.expr_of_operand(tt["discr"], Site(hb, None))
+            neg = False
+            while e.k == "un" and e.x["op"] == "Not":
+                neg, e = not neg, e.a[0]
+            if e.k != "bin" or e.x["op"] not in ("Lt", "Gt", "Ne", "Ge", "Le"):
+                continue
+            x, y, op = e.a[0], e.a[1], e.x["op"]
+            if op in ("Gt", "Le"):
+                x, y, op = y, x, {"Gt": "Lt", "Le": "Ge"}[op]
+            # x < y continues the loop (or !(x >= y))
+            if not ((op in ("Lt", "Ne") and not neg) or (op == "Ge" and neg)):
+                continue
+            lx = x.strip()
+            if not (lx.k == "call" and lx.x["path"].endswith("::len") and _is_depth(y)):
+                continue
+            vec = lx.a[0].strip()
+            if vec.k not in ("var", "phi", "call", "agg"):
+                continue
+            exits = [sx for sx in b.succs(hb) if sx not in blks]
+            if not exits:
+                continue
+            pushes = [s_ for s_, c_, t_ in b.calls() if s_.bb in blks and callee_name(c_).endswith("Vec::<T, A>::push")]
+            if len(pushes) != 1:
+                continue
+            # every path from the test back to the loop header passes the push
+            body_entry = [sx for sx in b.succs(hb) if sx in blks]
+            reach = reachable_without(b, banned_blocks=[pushes[0].bb], start=body_entry[0]) if body_entry else set()
+            back = [p_ for p_ in blks if h in b.succs(p_)]
+            if body_entry and not any(p_ in reach for p_ in back):
+                return "D"
         return None
 
     def _longest(self, b, w, nodes, entry, within, node_of, loop_cost, dead):
@@ -298,6 +338,12 @@ class Cost:
             return memo[bb]
 
         return go(entry, {entry})
+
+
+def _is_depth(e):
+    """index_levels + 1 (as usize), possibly through a local"""
+    c_ = checked(e)
+    return bool(c_ and c_[0] == "Add" and const_val(c_[2]) == 1 and is_self_field(strip_casts(c_[1]), "index_levels"))
 
 
 def r34_cost(ck, F):
